@@ -47,7 +47,49 @@ def check(rep, tier, seed):
                       "(%d formats x 2 argument forms, exhaustive)" % len(list(t.BaseVideoFormats)), not bad, repr(bad[:6]))
 
 
-REGISTER = {"C09": dict(extra=[check], assumptions=[
+def check_presets(rep, tier, seed):
+    """The preset_* helpers (11.4.6 - 11.4.10): for every index of every preset table, exactly the documented parameters are set to the table's
+    values and every other parameter is left alone (exhaustive over the finite tables, from three different starting dictionaries)."""
+    from pyvc import frontend
+
+    frontend.ensure_repo_on_path()
+    import vc2_data_tables as t
+    from vc2_conformance.pseudocode import video_parameters as vp
+
+    specs = [
+        ("preset_frame_rate", t.PRESET_FRAME_RATES, lambda p: {"frame_rate_numer": p.numerator, "frame_rate_denom": p.denominator}),
+        ("preset_pixel_aspect_ratio", t.PRESET_PIXEL_ASPECT_RATIOS, lambda p: {"pixel_aspect_ratio_numer": p.numerator, "pixel_aspect_ratio_denom": p.denominator}),
+        ("preset_signal_range", t.PRESET_SIGNAL_RANGES, lambda p: {"luma_offset": p.luma_offset, "luma_excursion": p.luma_excursion,
+                                                                  "color_diff_offset": p.color_diff_offset, "color_diff_excursion": p.color_diff_excursion}),
+        ("preset_color_spec", t.PRESET_COLOR_SPECS, lambda p: {"color_primaries_index": p.color_primaries_index, "color_matrix_index": p.color_matrix_index,
+                                                              "transfer_function_index": p.transfer_function_index}),
+        ("preset_color_primaries", {i: i for i in t.PresetColorPrimaries}, lambda p: {"color_primaries_index": p}),
+        ("preset_color_matrix", {i: i for i in t.PresetColorMatrices}, lambda p: {"color_matrix_index": p}),
+        ("preset_transfer_function", {i: i for i in t.PresetTransferFunctions}, lambda p: {"transfer_function_index": p}),
+    ]
+    bad = []
+    n = 0
+    for name, table, expand in specs:
+        fn = getattr(vp, name)
+        for idx, preset in table.items():
+            want = expand(preset)
+            for start in (0, 7, 22):
+                for arg in (idx, int(idx)):
+                    d = vp.set_source_defaults(start)
+                    before = dict(d)
+                    fn(d, arg)
+                    n += 1
+                    for k in before:
+                        exp = want.get(k, before[k])
+                        if d.get(k) != exp:
+                            bad.append((name, int(idx), start, k, repr(d.get(k)), repr(exp)))
+                    if set(d) != set(before):
+                        bad.append((name, int(idx), start, "keys", sorted(set(d) ^ set(before))))
+    rep.add_eval_fact("every preset_* helper sets exactly its documented video parameters to the preset table's values for every index and leaves the others "
+                      "unchanged (%d calls, exhaustive over the tables)" % n, not bad, repr(bad[:6]))
+
+
+REGISTER = {"C09": dict(extra=[check, check_presets], assumptions=[
     "ground fact (back end 'eval', exhaustive over the finite table): set_source_defaults agrees with vc2_data_tables for every base video format and parameter - "
     "the contract of set_source_defaults used by the proofs only states that all 20 parameters are present",
 ])}
